@@ -524,6 +524,19 @@ pub fn zst_universe() -> Universe {
         s.push(Ty::adt(g, vec![a(z.clone())]));
         s.push(Ty::adt(g, vec![a(Ty::vec(z.clone()))]));
     }
+    // deep-copy types that take no memory and still write bytes: a one-variant enum (a tag per item), a structure
+    // holding an over-aligned empty array (padding per item); in sequences that are followed by more data
+    let one = add(def("OneVariant", DeepPlain, &[], vec![], Body::Enum(vec![("Only".into(), Fields::Unit)])));
+    let pad0 = add(def("PadOnly", DeepPlain, &[], vec![], Body::Struct(named(&[("e", Ty::arr(p(U64), 0)), ("u", p(Unit))]))));
+    for z in [Ty::adt(one, vec![]), Ty::adt(pad0, vec![])] {
+        s.push(z.clone());
+        s.push(Ty::vec(z.clone()));
+        s.push(Ty::bslice(z.clone()));
+        s.push(Ty::adt(g, vec![a(Ty::vec(z.clone()))]));
+        s.push(Ty::adt(g, vec![a(Ty::bslice(z.clone()))]));
+        s.push(Ty::adt(g, vec![a(Ty::arr(z.clone(), 3))]));
+        s.push(Ty::vec(Ty::vec(z)));
+    }
     s.push(Ty::tup(Ty::adt(z0, vec![]), 3));
     s.push(Ty::adt(zg, vec![]));
     s.push(Ty::vec(Ty::adt(zg, vec![])));
